@@ -7,3 +7,295 @@ package topics
 
 // ---- lock discipline (C20) ---------------------------------------------------------------------
 //@ guarded tree.root by mtx
+
+// ---- the retained-message trie as a map from keys to messages (C07, C19) ------------------------
+// Same ghost structure as the subscription trie (subscriptions/contracts_verif.go): every node knows its tree (the root), its
+// parent, the level it is filed under, its key and depth; statements about the tree are invariants over all nodes of it.
+//@ ghost field Node.tree *Node
+//@ ghost field Node.parent *Node
+//@ ghost field Node.ckey string
+//@ ghost field Node.key Key
+//@ ghost field Node.depth int
+
+//@ pred tt_in(root *Node, r *Node) := r != nil && r.#tree == root
+//@ pred tt_wf0(root *Node) := forall r *Node :: {r.#tree} !allocated(r) ==> r.#tree == nil
+//@ pred tt_wf1(root *Node) := root != nil && root.#tree == root && root.#key == kroot() && root.#parent == nil && root.#depth == 0
+//@ pred tt_wf2(root *Node) := (forall r *Node :: {r.#tree} tt_in(root, r) ==> allocated(r) && allocated(r.Children) && r.#depth >= 0 && (r.#parent == nil ==> r == root))
+//@ pred tt_wf3(root *Node) := (forall r *Node :: {r.#parent} tt_in(root, r) && r != root ==> tt_in(root, r.#parent) && r.#ckey in r.#parent.Children
+//@         && r.#parent.Children[r.#ckey] == r && r.#key == kjoin(r.#parent.#key, r.#ckey) && r.#depth == r.#parent.#depth + 1)
+//@ pred tt_wf4(root *Node) := (forall r *Node, k string :: {r.Children[k]} tt_in(root, r) && k in r.Children ==>
+//@         tt_in(root, r.Children[k]) && r.Children[k].#parent == r && r.Children[k].#ckey == k && r.Children[k] != root)
+//@ pred tt_wf5(root *Node) := (forall a *Node, b *Node :: {a.#key, b.#key} tt_in(root, a) && tt_in(root, b) && a.#key == b.#key ==> a == b)
+//@ pred tt_wf6(root *Node) := (forall a *Node, b *Node :: {a.Children, b.Children} tt_in(root, a) && tt_in(root, b) && a.Children == b.Children && a.Children != nil ==> a == b)
+//@ pred tt_wf(root *Node) := tt_wf0(root) && tt_wf1(root) && tt_wf2(root) && tt_wf3(root) && tt_wf4(root) && tt_wf5(root) && tt_wf6(root)
+
+//@ func newNode() (n *Node)
+//@   ensures n != nil && fresh(n) && n.Children != nil && fresh(n.Children) && len(n.Buf) == 0 && (forall k string :: !(k in n.Children))
+//@   ensures n.#tree == nil
+
+//@ ghost-after (*Node).insert call newNode
+//@   set result.#tree := n.#tree
+//@   set result.#parent := n
+//@   set result.#ckey := token
+//@   set result.#key := kjoin(n.#key, token)
+//@   set result.#depth := n.#depth + 1
+
+// C19: insert at topic t from node n writes msg at the entry with key K = kext(key(n), t) and nowhere else; no node leaves the
+// tree; nodes created on the way other than K hold nothing; the result says whether K held a non-empty message before.
+//@ func (*Node).insert(topic format.Topic, msg []byte) (had bool, err error)
+//@   requires n != nil && n.#tree != nil
+//@   requires tt_wf0(n.#tree)
+//@   requires tt_wf1(n.#tree)
+//@   requires tt_wf2(n.#tree)
+//@   requires tt_wf3(n.#tree)
+//@   requires tt_wf4(n.#tree)
+//@   requires tt_wf5(n.#tree)
+//@   requires tt_wf6(n.#tree)
+//@   ensures err == nil
+//@   ensures tt_wf(old(n.#tree)) && tt_in(old(n.#tree), n)
+//@   ensures forall r *Node :: {r.#tree} old(tt_in(n.#tree, r)) ==> tt_in(old(n.#tree), r)
+//@   ensures forall r *Node :: {r.#tree} old(tt_in(n.#tree, r)) && r.#key != kext(n.#key, string(topic), topic == nil) ==> r.Buf == old(r.Buf)
+//@   ensures forall r *Node :: {r.#tree} !old(tt_in(n.#tree, r)) && tt_in(old(n.#tree), r) ==> fresh(r) && (r.#key != kext(n.#key, string(topic), topic == nil) ==> len(r.Buf) == 0)
+//@   ensures forall r *Node :: {r.#tree} tt_in(old(n.#tree), r) && r.#key == kext(n.#key, string(topic), topic == nil) ==> r.Buf == msg
+//@   ensures exists r *Node :: {r.#tree} tt_in(old(n.#tree), r) && r.#key == kext(n.#key, string(topic), topic == nil)
+//@   ensures forall r *Node :: {r.#tree} old(tt_in(n.#tree, r)) && r.#key == kext(n.#key, string(topic), topic == nil) ==> (had <==> old(len(r.Buf)) > 0)
+//@   ensures (forall r *Node :: {r.#tree} old(tt_in(n.#tree, r)) ==> r.#key != kext(n.#key, string(topic), topic == nil)) ==> !had
+//@   ensures forall r *Node :: {r.#key} {r.#parent} {r.#ckey} {r.#depth} {r.Children} old(tt_in(n.#tree, r)) ==> r.#key == old(r.#key) && r.#parent == old(r.#parent) && r.#ckey == old(r.#ckey) && r.#depth == old(r.#depth) && (r.Children == old(r.Children) || (old(r.Children) == nil && fresh(r.Children)))
+//@   ensures forall r *Node :: {r.#tree} old(allocated(r)) && !old(tt_in(n.#tree, r)) ==> r.#tree == old(r.#tree)
+//@   modifies allfields(n), allmaps(n.Children), newrows(topic)
+
+//@ ghost-after (*Node).remove delete
+//@   set child.#tree := nil
+
+// C19: remove at topic t from node n empties the entry with key K = kext(key(n), t) and changes no other entry; only nodes
+// that hold nothing leave the tree, no node joins it; when the path to K does not exist nothing changes and an error is returned.
+//@ func (*Node).remove(topic format.Topic) (err error)
+//@   requires n != nil && n.#tree != nil
+//@   requires tt_wf0(n.#tree)
+//@   requires tt_wf1(n.#tree)
+//@   requires tt_wf2(n.#tree)
+//@   requires tt_wf3(n.#tree)
+//@   requires tt_wf4(n.#tree)
+//@   requires tt_wf5(n.#tree)
+//@   requires tt_wf6(n.#tree)
+//@   ensures tt_wf(old(n.#tree)) && tt_in(old(n.#tree), n)
+//@   ensures forall r *Node :: {r.#tree} old(tt_in(n.#tree, r)) && r.#key != kext(n.#key, string(topic), topic == nil) ==> r.Buf == old(r.Buf)
+//@   ensures err == nil ==> (forall r *Node :: {r.#tree} old(tt_in(n.#tree, r)) && r.#key == kext(n.#key, string(topic), topic == nil) ==> len(r.Buf) == 0)
+//@   ensures err != nil ==> (forall r *Node :: {r.#tree} old(tt_in(n.#tree, r)) ==> r.Buf == old(r.Buf) && tt_in(old(n.#tree), r))
+//@   ensures forall r *Node :: {r.#tree} old(tt_in(n.#tree, r)) && !tt_in(old(n.#tree), r) ==> len(r.Buf) == 0 && r != n
+//@   ensures forall r *Node :: {r.#tree} tt_in(old(n.#tree), r) ==> old(tt_in(n.#tree, r))
+//@   ensures forall r *Node :: {r.#key} {r.#parent} {r.#ckey} {r.#depth} {r.Children} old(tt_in(n.#tree, r)) ==> r.#key == old(r.#key) && r.#parent == old(r.#parent) && r.#ckey == old(r.#ckey) && r.#depth == old(r.#depth) && (r.Children == old(r.Children) || (old(r.Children) == nil && fresh(r.Children)))
+//@   ensures forall r *Node :: {r.#tree} old(allocated(r)) && !old(tt_in(n.#tree, r)) ==> r.#tree == old(r.#tree)
+//@   modifies allfields(n), allmaps(n.Children), newrows(topic)
+
+// ---- iteration (C19, C07) -----------------------------------------------------------------------
+//@ ghost-after (*Node).iterate callparam f
+//@   set #hits := update(#hits, arg0_owner, #hits[arg0_owner] + 1)
+// the iterator may do anything except touch the nodes and child maps of tries (checked for every closure passed in)
+//@ assume-call (*Node).iterate.f(b []byte)
+//@   modifies *, except(allfields(*Node)), except(allmaps(Node.Children)), except(allfields(*tree)), except(heap(K_sync_RWMutex)), except(heap(E_byte)), newrows(bytes), #iterCalls
+//@   ensures #iterCalls == old(#iterCalls) + 1
+//@ ghost-after (*Node).iterate call (*Node).iterate
+//@   set #walked := update(#walked, child, #walked[child] + 1)
+
+// iterate reports exactly the non-empty entries of the subtree, each at most once (soundness and the bound, for the whole
+// subtree); completeness one level at a time: the node itself if it holds a message, and every child is iterated.
+//@ func (*Node).iterate(f NodeIterator)
+//@   requires n != nil && n.#tree != nil && tt_wf(n.#tree)
+//@   ensures forall r *Node :: {#hits[r]} #hits[r] >= old(#hits)[r] && #hits[r] <= old(#hits)[r] + 1
+//@   ensures forall r *Node :: {#hits[r]} #hits[r] > old(#hits)[r] ==> tt_in(n.#tree, r) && len(r.Buf) > 0 && kpre(n.#key, r.#key)
+//@   ensures len(n.Buf) > 0 ==> #hits[n] == old(#hits)[n] + 1
+//@   ensures forall k string :: {n.Children[k]} k in n.Children ==> #walked[n.Children[k]] >= old(#walked)[n.Children[k]] + 1
+//@   ensures forall r *Node :: {#walked[r]} #walked[r] >= old(#walked)[r]
+//@   modifies *, except(allfields(*Node)), except(allmaps(Node.Children)), except(allfields(*tree)), except(heap(K_sync_RWMutex)), except(heap(E_byte)), newrows(bytes), #hits, #iterCalls, #walked
+//@ loop (*Node).iterate#1
+//@   invariant n != nil && n.#tree != nil && tt_wf(n.#tree)
+//@   invariant forall r *Node :: {#walked[r]} #walked[r] >= old(#walked)[r]
+//@   invariant forall kk string :: {seen(kk)} seen(kk) ==> #walked[n.Children[kk]] >= old(#walked)[n.Children[kk]] + 1
+//@   invariant forall r *Node :: {#hits[r]} #hits[r] >= old(#hits)[r] && #hits[r] <= old(#hits)[r] + 1
+//@   invariant forall r *Node :: {#hits[r]} #hits[r] > old(#hits)[r] ==> tt_in(n.#tree, r) && len(r.Buf) > 0 && kpre(n.#key, r.#key)
+//@   invariant forall r *Node :: {#hits[r]} #hits[r] > old(#hits)[r] && r != n ==> (exists kk string :: {seen(kk)} seen(kk) && kk in n.Children && kpre(kjoin(n.#key, kk), r.#key))
+//@   invariant len(n.Buf) > 0 ==> #hits[n] == old(#hits)[n] + 1
+//@   invariant len(n.Buf) == 0 ==> #hits[n] == old(#hits)[n]
+
+// ---- matching a filter against the retained topics (C07) ----------------------------------------
+// mret(start, K, f, e): from the node with key `start`, the entry with key K matches the filter remainder f (e: the filter has
+// ended). Transcribed from the MQTT rules: at the end of the filter the node itself; a last level "#" matches the node itself
+// (the parent level) and everything below it; "+" matches exactly one level, whatever it is; any other level must be equal.
+// (MQTT forbids levels after "#"; for such invalid filters mret is defined the way the code treats them: "#" ends the filter.)
+//@ fun mret(start Key, k Key, f string, e bool) bool
+//@ axiom mret_end: forall s Key, k Key, f string, e bool :: {mret(s, k, f, e)} e ==> (mret(s, k, f, e) <==> k == s)
+//@ axiom mret_hash: forall s Key, k Key, f string, e bool :: {mret(s, k, f, e)} !e && lfirst(f) == "#" ==> (mret(s, k, f, e) <==> kpre(s, k))
+//@ axiom mret_plus: forall s Key, k Key, f string, e bool, l string :: {mret(s, k, f, e), kjoin(s, l)} !e && lfirst(f) == "+" && mret(kjoin(s, l), k, lrest(f), fslash(f) < 0) ==> mret(s, k, f, e)
+//@ axiom mret_name: forall s Key, k Key, f string, e bool :: {mret(s, k, f, e)} !e && lfirst(f) != "+" && lfirst(f) != "#" ==> (mret(s, k, f, e) <==> mret(kjoin(s, lfirst(f)), k, lrest(f), fslash(f) < 0))
+
+// the closure handed to iterate by allRetained appends its argument, and nothing else happens to the list
+//@ func (*Node).allRetained$1(b []byte)
+//@   requires msgs != nil
+//@   ensures len(*msgs) == old(len(*msgs)) + 1 && (*msgs)[old(len(*msgs))] == b
+//@   ensures forall i int :: {(*msgs)[i]} 0 <= i && i < old(len(*msgs)) ==> (*msgs)[i] == old((*msgs)[i])
+//@   modifies *msgs, allelems(*msgs)
+
+// allRetained iterates the subtree once with that closure (how iterate's calls and the closure's appends compose is not
+// mechanised: iterate is verified for every iterator that leaves the trie alone, the closure is verified to append).
+//@ func (*Node).allRetained(msgs *[][]byte)
+//@   requires n != nil && n.#tree != nil && tt_wf(n.#tree) && msgs != nil
+//@   ensures #walked[n] >= old(#walked)[n] + 1
+//@   ensures forall r *Node :: {#walked[r]} #walked[r] >= old(#walked)[r]
+//@   ensures forall r *Node :: {#hits[r]} #hits[r] >= old(#hits)[r] && #hits[r] <= old(#hits)[r] + 1
+//@   ensures forall r *Node :: {#hits[r]} #hits[r] > old(#hits)[r] ==> tt_in(n.#tree, r) && len(r.Buf) > 0 && kpre(n.#key, r.#key)
+//@   ensures len(n.Buf) > 0 ==> #hits[n] == old(#hits)[n] + 1
+//@   modifies *, except(allfields(*Node)), except(allmaps(Node.Children)), except(allfields(*tree)), except(heap(K_sync_RWMutex)), except(heap(E_byte)), newrows(bytes), #hits, #iterCalls, #walked
+//@ ghost-after (*Node).allRetained call (*Node).iterate
+//@   set #walked := update(#walked, n, #walked[n] + 1)
+
+// the append in match adds the message of the node itself: count it for that node
+//@ ghost-after (*Node).match append
+//@   set #hits := update(#hits, n, #hits[n] + 1)
+//@ ghost-after (*Node).match call (*Node).match
+//@   set #walked := update(#walked, child, #walked[child] + 1)
+
+// C07 (soundness): match reports only non-empty entries of this tree whose key matches the filter, each at most once;
+// (the end of the filter, exactly): the node's own message is appended to the list iff it is non-empty, the rest of the list
+// stays; (completeness, one level at a time): a "#" level hands the whole subtree to allRetained, a "+" level continues in
+// every child, any other level in the child of that name. The trie itself is never written (match runs under the read lock).
+//@ func (*Node).match(topic format.Topic, msgs *[][]byte) (err error)
+//@   requires n != nil && n.#tree != nil && tt_wf(n.#tree) && msgs != nil
+//@   ensures forall r *Node :: {#hits[r]} #hits[r] >= old(#hits)[r] && #hits[r] <= old(#hits)[r] + 1
+//@   ensures forall r *Node :: {#hits[r]} #hits[r] > old(#hits)[r] ==> tt_in(n.#tree, r) && len(r.Buf) > 0 && kpre(n.#key, r.#key) && mret(n.#key, r.#key, string(topic), topic == nil)
+//@   ensures topic == nil && len(n.Buf) > 0 ==> #hits[n] == old(#hits)[n] + 1 && len(*msgs) == old(len(*msgs)) + 1 && (*msgs)[old(len(*msgs))] == n.Buf
+//@   ensures topic == nil && len(n.Buf) > 0 ==> (forall i int :: {(*msgs)[i]} 0 <= i && i < old(len(*msgs)) ==> (*msgs)[i] == old((*msgs)[i]))
+//@   ensures topic == nil && len(n.Buf) == 0 ==> *msgs == old(*msgs) && (forall i int :: {(*msgs)[i]} 0 <= i && i < len(*msgs) ==> (*msgs)[i] == old((*msgs)[i]))
+//@   ensures err == nil && topic != nil && lfirst(string(topic)) == "#" ==> #walked[n] >= old(#walked)[n] + 1
+//@   ensures err == nil && topic != nil && lfirst(string(topic)) == "+" ==> (forall k string :: {n.Children[k]} k in n.Children ==> #walked[n.Children[k]] >= old(#walked)[n.Children[k]] + 1)
+//@   ensures err == nil && topic != nil && lfirst(string(topic)) != "+" && lfirst(string(topic)) != "#" && lfirst(string(topic)) in n.Children
+//@             ==> #walked[n.Children[lfirst(string(topic))]] >= old(#walked)[n.Children[lfirst(string(topic))]] + 1
+//@   ensures forall r *Node :: {#walked[r]} #walked[r] >= old(#walked)[r]
+//@   modifies *, except(allfields(*Node)), except(allmaps(Node.Children)), except(allfields(*tree)), except(heap(K_sync_RWMutex)), except(heap(E_byte)), newrows(bytes), #hits, #iterCalls, #walked
+//@ loop (*Node).match#1
+//@   invariant n != nil && n.#tree != nil && tt_wf(n.#tree) && msgs != nil
+//@   invariant token == lfirst(string(old(topic))) && old(topic) != nil && token == "+"
+//@   invariant forall r *Node :: {#walked[r]} #walked[r] >= old(#walked)[r]
+//@   invariant forall kk string :: {seen(kk)} seen(kk) ==> #walked[n.Children[kk]] >= old(#walked)[n.Children[kk]] + 1
+//@   invariant forall r *Node :: {#hits[r]} #hits[r] >= old(#hits)[r] && #hits[r] <= old(#hits)[r] + 1
+//@   invariant forall r *Node :: {#hits[r]} #hits[r] > old(#hits)[r] ==> tt_in(n.#tree, r) && len(r.Buf) > 0 && mret(n.#key, r.#key, string(old(topic)), false)
+//@   invariant forall r *Node :: {#hits[r]} #hits[r] > old(#hits)[r] ==> (exists kk string :: {seen(kk)} seen(kk) && kk in n.Children && kpre(kjoin(n.#key, kk), r.#key))
+
+// ---- counting (C19) -------------------------------------------------------------------------------
+// nz(r): the number of non-empty entries in the subtree of r. It is DEFINED by the recursion `own(r) plus the sum of nz over the
+// children`; the definition is a hypothesis of count (tt_nzdef), so the contract reads: for whatever function nz satisfies that
+// recursion on this tree, count adds nz(n) to the counter. msum(S, V) is the sum of nz(V[k]) over the keys k in S.
+//@ fun nz(r *Node) int
+//@ fun msum(S StrSet, V StrRefMap) int
+//@ axiom msum_empty: forall V StrRefMap :: {msum(emptyset(), V)} msum(emptyset(), V) == 0
+//@ axiom msum_add: forall S StrSet, V StrRefMap, k string :: {msum(update(S, k, true), V)} !S[k] ==> msum(update(S, k, true), V) == msum(S, V) + nz(asptr(V[k], *Node))
+//@ pred tt_nzdef(root *Node) := forall r *Node :: {nz(r)} tt_in(root, r) ==> nz(r) == (if len(r.Buf) > 0 then 1 else 0) + msum(domof(r.Children), valsof(r.Children))
+
+//@ func (*Node).count(counter int) (res int)
+//@   requires n != nil && n.#tree != nil && tt_wf(n.#tree) && tt_nzdef(n.#tree)
+//@   ensures res == counter + nz(n)
+//@   modifies nothing
+//@ loop (*Node).count#1
+//@   invariant n != nil && n.#tree != nil && tt_wf(n.#tree) && tt_nzdef(n.#tree)
+//@   invariant counter == old(counter) + (if len(n.Buf) > 0 then 1 else 0) + msum(seenset(), valsof(n.Children))
+
+// ---- the store object: the invariant of its root under the lock, and dump / load (C19) -----------------------------
+//@ pred ttree_inv(t *tree) := t != nil && t.root != nil && tt_wf(t.root)
+
+// A-PROTOBUF (same assumption as for the subscription trie): tdv(bytes, K) is the message a dump holds for the key K. Marshal
+// writes the message of every node under its key and nothing for absent keys; Unmarshal builds a fresh well-formed tree of new
+// nodes holding exactly what the dump holds.
+//@ fun tdv(dump string, k Key) string
+//@ trusted func github.com/golang/protobuf/proto.Marshal(pb proto.Message) (out []byte, err error)
+//@   ensures err == nil && typeis(pb, *Node) ==> fresh(out)
+//@         && (forall r *Node :: {r.#tree} tt_in(unbox(pb, *Node), r) ==> tdv(string(out), r.#key) == string(r.Buf))
+//@         && (forall k Key :: {tdv(string(out), k)} (forall r *Node :: {r.#tree} tt_in(unbox(pb, *Node), r) ==> r.#key != k) ==> tdv(string(out), k) == "")
+//@   modifies newrows(bytes)
+//@ trusted func github.com/golang/protobuf/proto.Unmarshal(buf []byte, pb proto.Message) (err error)
+//@   requires typeis(pb, *Node) ==> unbox(pb, *Node) != nil
+//@   ensures err == nil && typeis(pb, *Node) ==> tt_wf(unbox(pb, *Node))
+//@         && (forall r *Node :: {r.#tree} tt_in(unbox(pb, *Node), r) && r != unbox(pb, *Node) ==> fresh(r))
+//@         && (forall r *Node :: {r.#tree} tt_in(unbox(pb, *Node), r) ==> tdv(string(buf), r.#key) == string(r.Buf))
+//@         && (forall k Key :: {tdv(string(buf), k)} (forall r *Node :: {r.#tree} tt_in(unbox(pb, *Node), r) ==> r.#key != k) ==> tdv(string(buf), k) == "")
+//@   ensures typeis(pb, *Node) ==> (forall r *Node :: {r.#tree} old(allocated(r)) && r != unbox(pb, *Node) ==> r.#tree == old(r.#tree) && r.Buf == old(r.Buf) && r.Children == old(r.Children))
+//@   ensures err != nil && typeis(pb, *Node) ==> (forall r *Node :: {r.#tree} !old(allocated(r)) || r == unbox(pb, *Node) ==> r.#tree == old(r.#tree))
+//@   ensures typeis(pb, *Node) ==> tt_wf0(nil)
+//@   modifies newobjs(unbox(pb, *Node)), newmaps(unbox(pb, *Node).Children), newrows(bytes)
+
+//@ func NewTree() (r Store)
+//@   requires tt_wf0(nil)
+//@   ensures typeis(r, *tree) && ttree_inv(unbox(r, *tree)) && fresh(unbox(r, *tree))
+//@   ensures forall x *Node :: {x.#tree} tt_in(unbox(r, *tree).root, x) ==> x == unbox(r, *tree).root
+//@   ensures len(unbox(r, *tree).root.Buf) == 0
+//@ ghost-after NewTree call newNode
+//@   set result.#tree := result
+//@   set result.#key := kroot()
+//@   set result.#parent := nil
+//@   set result.#depth := 0
+
+// C19 at the interface: Insert / Remove at topic p touch exactly the entry with key kext(kroot, p)
+//@ func (*tree).Insert(topic []byte, payload []byte) (had bool, err error)
+//@   requires ttree_inv(t) && unlocked(t.mtx)
+//@   ensures ttree_inv(t) && err == nil && t.root == old(t.root)
+//@   ensures forall r *Node :: {r.#tree} old(tt_in(t.root, r)) ==> tt_in(t.root, r)
+//@   ensures forall r *Node :: {r.#tree} old(tt_in(t.root, r)) && r.#key != kext(kroot(), string(topic), topic == nil) ==> r.Buf == old(r.Buf)
+//@   ensures forall r *Node :: {r.#tree} !old(tt_in(t.root, r)) && tt_in(t.root, r) ==> fresh(r) && (r.#key != kext(kroot(), string(topic), topic == nil) ==> len(r.Buf) == 0)
+//@   ensures forall r *Node :: {r.#tree} tt_in(t.root, r) && r.#key == kext(kroot(), string(topic), topic == nil) ==> r.Buf == payload
+//@   ensures exists r *Node :: {r.#tree} tt_in(t.root, r) && r.#key == kext(kroot(), string(topic), topic == nil)
+//@   ensures forall r *Node :: {r.#tree} old(tt_in(t.root, r)) && r.#key == kext(kroot(), string(topic), topic == nil) ==> (had <==> old(len(r.Buf)) > 0)
+//@   ensures (forall r *Node :: {r.#tree} old(tt_in(t.root, r)) ==> r.#key != kext(kroot(), string(topic), topic == nil)) ==> !had
+//@   ensures forall r *Node :: {r.#key} old(tt_in(t.root, r)) ==> r.#key == old(r.#key)
+//@   modifies allfields(t.root), allmaps(t.root.Children), newrows(topic), heap(K_sync_RWMutex)
+
+//@ func (*tree).Remove(topic []byte) (err error)
+//@   requires ttree_inv(t) && unlocked(t.mtx)
+//@   ensures ttree_inv(t) && t.root == old(t.root)
+//@   ensures forall r *Node :: {r.#tree} old(tt_in(t.root, r)) && r.#key != kext(kroot(), string(topic), topic == nil) ==> r.Buf == old(r.Buf)
+//@   ensures err == nil ==> (forall r *Node :: {r.#tree} old(tt_in(t.root, r)) && r.#key == kext(kroot(), string(topic), topic == nil) ==> len(r.Buf) == 0)
+//@   ensures err != nil ==> (forall r *Node :: {r.#tree} old(tt_in(t.root, r)) ==> r.Buf == old(r.Buf) && tt_in(t.root, r))
+//@   ensures forall r *Node :: {r.#tree} old(tt_in(t.root, r)) && !tt_in(t.root, r) ==> len(r.Buf) == 0
+//@   ensures forall r *Node :: {r.#tree} tt_in(t.root, r) ==> old(tt_in(t.root, r))
+//@   ensures forall r *Node :: {r.#key} old(tt_in(t.root, r)) ==> r.#key == old(r.#key)
+//@   modifies allfields(t.root), allmaps(t.root.Children), newrows(topic), heap(K_sync_RWMutex)
+
+// C07 at the interface: Match reports only entries whose key matches the filter, and the walk starts at the root
+//@ func (*tree).Match(topic []byte, msg *[][]byte) (err error)
+//@   requires ttree_inv(t) && unlocked(t.mtx) && msg != nil
+//@   ensures forall r *Node :: {#hits[r]} #hits[r] >= old(#hits)[r] && #hits[r] <= old(#hits)[r] + 1
+//@   ensures forall r *Node :: {#hits[r]} #hits[r] > old(#hits)[r] ==> tt_in(t.root, r) && len(r.Buf) > 0 && mret(kroot(), r.#key, string(topic), topic == nil)
+//@   ensures #walked[t.root] >= old(#walked)[t.root] + 1
+//@   modifies *, except(allfields(*Node)), except(allmaps(Node.Children)), except(allfields(*tree)), except(heap(K_sync_RWMutex)), except(heap(E_byte)), newrows(bytes), #hits, #iterCalls, #walked
+//@ ghost-after (*tree).Match call (*Node).match
+//@   set #walked := update(#walked, t.root, #walked[t.root] + 1)
+
+//@ func (*tree).Iterate(f NodeIterator)
+//@   requires ttree_inv(t) && unlocked(t.mtx)
+//@   ensures forall r *Node :: {#hits[r]} #hits[r] >= old(#hits)[r] && #hits[r] <= old(#hits)[r] + 1
+//@   ensures forall r *Node :: {#hits[r]} #hits[r] > old(#hits)[r] ==> tt_in(t.root, r) && len(r.Buf) > 0
+//@   ensures #walked[t.root] >= old(#walked)[t.root] + 1
+//@   modifies *, except(allfields(*Node)), except(allmaps(Node.Children)), except(allfields(*tree)), except(heap(K_sync_RWMutex)), except(heap(E_byte)), newrows(bytes), #hits, #iterCalls, #walked
+//@ assume-call (*tree).Iterate.f(b []byte)
+//@   modifies *, except(allfields(*Node)), except(allmaps(Node.Children)), except(allfields(*tree)), except(heap(K_sync_RWMutex)), except(heap(E_byte)), newrows(bytes), #iterCalls
+//@   ensures #iterCalls == old(#iterCalls) + 1
+//@ ghost-after (*tree).Iterate call (*Node).iterate
+//@   set #walked := update(#walked, t.root, #walked[t.root] + 1)
+
+// Count returns nz(root) for the function nz defined by the recursion over this tree
+//@ func (*tree).Count() (res int)
+//@   requires ttree_inv(t) && unlocked(t.mtx) && tt_nzdef(t.root)
+//@   ensures res == nz(t.root)
+//@   modifies heap(K_sync_RWMutex)
+
+//@ func (*tree).Dump() (out []byte, err error)
+//@   requires ttree_inv(t) && unlocked(t.mtx)
+//@   ensures err == nil ==> (forall r *Node :: {r.#tree} tt_in(t.root, r) ==> tdv(string(out), r.#key) == string(r.Buf))
+//@   ensures err == nil ==> (forall k Key :: {tdv(string(out), k)} (forall r *Node :: {r.#tree} tt_in(t.root, r) ==> r.#key != k) ==> tdv(string(out), k) == "")
+//@   modifies newrows(bytes), heap(K_sync_RWMutex)
+//@ func (*tree).Load(buf []byte) (err error)
+//@   requires ttree_inv(t) && unlocked(t.mtx)
+//@   ensures ttree_inv(t)
+//@   ensures err != nil ==> t.root == old(t.root)
+//@   ensures err == nil ==> (forall r *Node :: {r.#tree} tt_in(t.root, r) ==> tdv(string(buf), r.#key) == string(r.Buf))
+//@   ensures err == nil ==> (forall k Key :: {tdv(string(buf), k)} (forall r *Node :: {r.#tree} tt_in(t.root, r) ==> r.#key != k) ==> tdv(string(buf), k) == "")
+//@   ensures forall r *Node :: {r.#tree} old(tt_in(t.root, r)) ==> r.Buf == old(r.Buf) && r.#tree == old(r.#tree)
+//@   modifies t.root, newobjs(t.root), newmaps(t.root.Children), newrows(bytes), heap(K_sync_RWMutex)
